@@ -54,6 +54,7 @@ Section TyInd.
   Hypothesis Hdc : forall c, P (TDC c).
   Hypothesis Hwrap : forall t, P t -> P (TWrap t).
   Hypothesis Hunion : forall ts, Forall P ts -> P (TUnion ts).
+  Hypothesis Hnone : P TNone.
 
   Fixpoint ty_ind' (t: ty) : P t :=
     let go := fix go (ts: list ty) : Forall P ts :=
@@ -73,6 +74,7 @@ Section TyInd.
     | TDC c => Hdc c
     | TWrap t' => Hwrap t' (ty_ind' t')
     | TUnion ts => Hunion ts (go ts)
+    | TNone => Hnone
     end.
 End TyInd.
 
@@ -133,7 +135,7 @@ Proof. unfold as_items. induction ys; simpl; [reflexivity | now rewrite IHys]. Q
 (* the generator's identity test does not depend on the holder's dialect support *)
 Lemma is_id_cp_hsup E N h1 h2 t : is_id (cp E N h1 t) = is_id (cp E N h2 t).
 Proof.
-  revert h1 h2. induction t as [| lk | | | t IHt | o t IHt | t IHt | ts IHts | o t1 IHt1 t2 IHt2 | c0 | tw IHw | us IHus] using ty_ind';
+  revert h1 h2. induction t as [| lk | | | t IHt | o t IHt | t IHt | ts IHts | o t1 IHt1 t2 IHt2 | c0 | tw IHw | us IHus |] using ty_ind';
     intros h1 h2; simpl; try reflexivity; try (now apply IHw).
   - unfold seq_expr. rewrite (IHt h1 h2). destruct (is_id (cp E N h2 t)); [| reflexivity].
     destruct (inN N o); [reflexivity |]. destruct (origin_eqb o OList); reflexivity.
@@ -142,7 +144,7 @@ Proof.
     destruct (inN N o); [reflexivity |]. destruct (origin_eqb o ODict); reflexivity.
   - assert (H: forallb is_id (map (cp E N h1) us) = forallb is_id (map (cp E N h2) us)).
     { induction IHus as [| x r Hx Hr IHr]; simpl; [reflexivity |]. now rewrite (Hx h1 h2), IHr. }
-    now rewrite H.
+    rewrite H. destruct (forallb is_id (map (cp E N h2) us)); reflexivity.
 Qed.
 
 Lemma is_id_IId e : is_id e = true -> e = IId.
@@ -164,13 +166,21 @@ End Eqs.
 
 (* ------------------------------------------------------------------ *)
 (* main lemma, serialization side *)
+Lemma zip_all_and {A B} (p q: A -> B -> bool) ts xs :
+  zip_all p ts xs = true -> zip_all q ts xs = true -> zip_all (fun x t => p x t && q x t) ts xs = true.
+Proof.
+  revert ts. induction xs as [| x r IH]; intros ts Hp Hq; destruct ts as [| t ts]; simpl in *; try discriminate; auto.
+  apply andb_prop in Hp. apply andb_prop in Hq. destruct Hp as [Hp1 Hp2]. destruct Hq as [Hq1 Hq2].
+  rewrite Hp1, Hq1. simpl. now apply IH.
+Qed.
+
 Section PackShare.
   Variable E : env.
   Variable n0 : nat.
 
   Definition P_pack (v: lv) : Prop :=
     forall call N hsup t n,
-      conforms E v t = true -> all_old n0 v = true -> n0 <= n ->
+      conforms E v t = true -> udet E v call N hsup t = true -> all_old n0 v = true -> n0 <= n ->
       let (r, n') := run_pack E v call (cp E N hsup t) n in
       maxold n0 r = byref E (ident E) v call N hsup t /\ n <= n'.
 
@@ -185,46 +195,122 @@ Section PackShare.
     intros Ho Hc Hb. rewrite Hc, rp_id, Hb. split; [now apply maxold_old | lia].
   Qed.
 
-  Ltac t_opt IHt :=
-    let Hc := fresh "Hc" in let Ho := fresh "Ho" in let Hn := fresh "Hn" in
-    intros n Hc Ho Hn; cbn [cp]; rewrite rp_opt; apply IHt; assumption.
+  (* unfolding equations for unions *)
+  Lemma rp_union v call idc es n :
+    run_pack E v call (IUnion idc es) n =
+    if in_idc idc v then (v, n)
+    else pick (fun e' => negb (is_id e') && accepts v e') (fun e' => run_pack E v call e' n) (v, n) es.
+  Proof. destruct v; reflexivity. Qed.
+
+  Lemma byref_union cf v call N hsup us :
+    byref E cf v call N hsup (TUnion us) =
+    pick (fun t' => conforms E v t') (fun t' => byref E cf v call N hsup t') [] us.
+  Proof. destruct v; reflexivity. Qed.
+
+  Lemma udet_union v call N hsup us :
+    udet E v call N hsup (TUnion us) =
+    ugo (fun t' => conforms E v t') (fun t' => is_id (cp E N hsup t'))
+        (fun t' => accepts v (cp E N hsup t')) (fun t' => udet E v call N hsup t')
+        (forallb is_id (map (cp E N hsup) us))
+        (in_idc (flat_map (fun t' => if is_id (cp E N hsup t') then tid t' else []) us) v) us.
+  Proof. destruct v; reflexivity. Qed.
+
+  Definition HF v call N hsup (t: ty) : Prop :=
+    forall n, conforms E v t = true -> udet E v call N hsup t = true -> all_old n0 v = true -> n0 <= n ->
+      let (r, n') := run_pack E v call (cp E N hsup t) n in
+      maxold n0 r = byref E (ident E) v call N hsup t /\ n <= n'.
+
+  (* the union hands the value back: it belongs to a by-reference member *)
+  Lemma union_byref_branch v call N hsup allid inid us :
+    all_old n0 v = true ->
+    (inid = true \/ Forall (fun t => is_id (cp E N hsup t) = true) us) ->
+    Forall (HF v call N hsup) us ->
+    ugo (fun t' => conforms E v t') (fun t' => is_id (cp E N hsup t'))
+        (fun t' => accepts v (cp E N hsup t')) (fun t' => udet E v call N hsup t') allid inid us = true ->
+    maxold n0 v = pick (fun t' => conforms E v t') (fun t' => byref E (ident E) v call N hsup t') [] us.
+  Proof.
+    intros Ho Hside HFs. revert Hside. induction HFs as [| t r Ht Hr IH]; intros Hside Hg; simpl in Hg; [discriminate Hg |].
+    simpl. destruct (conforms E v t) eqn:Hc.
+    - apply andb_prop in Hg. destruct Hg as [Hg Hu].
+      assert (Hid: is_id (cp E N hsup t) = true).
+      { destruct (is_id (cp E N hsup t)) eqn:Hid; [reflexivity |].
+        destruct Hside as [Hi | Hall].
+        - subst inid. simpl in Hg. discriminate Hg.
+        - inversion Hall; subst. congruence. }
+      specialize (Ht n0 Hc Hu Ho (le_n _)). apply is_id_IId in Hid. rewrite Hid, rp_id in Ht. tauto.
+    - apply andb_prop in Hg. destruct Hg as [_ Hg]. apply IH; auto.
+      destruct Hside as [Hi | Hall]; [left; exact Hi | right; inversion Hall; assumption].
+  Qed.
+
+  (* no identity member claims the class of the value: the first packer that does not raise is the
+     packer of the member the value belongs to *)
+  Lemma union_try_branch v call N hsup us n :
+    all_old n0 v = true -> n0 <= n ->
+    Forall (HF v call N hsup) us ->
+    ugo (fun t' => conforms E v t') (fun t' => is_id (cp E N hsup t'))
+        (fun t' => accepts v (cp E N hsup t')) (fun t' => udet E v call N hsup t') false false us = true ->
+    let (r, n') := pick (fun e' => negb (is_id e') && accepts v e') (fun e' => run_pack E v call e' n) (v, n)
+                        (map (cp E N hsup) us) in
+    maxold n0 r = pick (fun t' => conforms E v t') (fun t' => byref E (ident E) v call N hsup t') [] us /\ n <= n'.
+  Proof.
+    intros Ho Hn HFs. induction HFs as [| t r Ht Hr IH]; intros Hg; simpl in Hg; [discriminate Hg |].
+    simpl. destruct (conforms E v t) eqn:Hc.
+    - apply andb_prop in Hg. destruct Hg as [Hg Hu].
+      destruct (is_id (cp E N hsup t)) eqn:Hid; [simpl in Hg; discriminate Hg |].
+      simpl in Hg. rewrite Hg. simpl. apply Ht; auto.
+    - apply andb_prop in Hg. destruct Hg as [Hs Hg].
+      apply negb_true_iff in Hs. rewrite Hs. apply IH; auto.
+  Qed.
+
+  Lemma union_pack_case v call N hsup us n :
+    Forall (HF v call N hsup) us ->
+    conforms E v (TUnion us) = true -> udet E v call N hsup (TUnion us) = true ->
+    all_old n0 v = true -> n0 <= n ->
+    let (r, n') := run_pack E v call (cp E N hsup (TUnion us)) n in
+    maxold n0 r = byref E (ident E) v call N hsup (TUnion us) /\ n <= n'.
+  Proof.
+    intros HFs Hc Hu Ho Hn. rewrite byref_union. rewrite udet_union in Hu. cbn [cp].
+    destruct (forallb is_id (map (cp E N hsup) us)) eqn:Hall.
+    - rewrite rp_id. split; [| lia].
+      apply (union_byref_branch v call N hsup true
+               (in_idc (flat_map (fun t' => if is_id (cp E N hsup t') then tid t' else []) us) v) us Ho);
+        [right | exact HFs | exact Hu].
+      apply forallb_Forall in Hall. clear -Hall.
+      induction us as [| t r IHr]; simpl in *; inversion Hall; subst; constructor; auto.
+    - rewrite rp_union.
+      destruct (in_idc (flat_map (fun t' => if is_id (cp E N hsup t') then tid t' else []) us) v) eqn:Hin.
+      + split; [| lia].
+        apply (union_byref_branch v call N hsup false true us Ho); [left; reflexivity | exact HFs | exact Hu].
+      + apply union_try_branch; auto.
+  Qed.
 
   Lemma pack_share_all : forall v, P_pack v.
   Proof.
     induction v as [z | | z | l | k l xs IH | k l kvs IH | c l fs IH] using lv_ind';
-      intros call N hsup t; induction t as [| lk | | | t' IHt | o t' IHt | t' IHt | ts IHts | o kt IHk vt IHv | c0 | tw IHw | us IHus] using ty_ind';
-      intros n Hc Ho Hn; try (simpl in Hc; discriminate Hc); try (apply IHw; auto; fail).
-    (* VAtom *)
-    - simpl. split; [reflexivity | lia].
-    - apply P_id; auto.
-    - apply P_id; auto.
-    - cbn [cp]. rewrite rp_opt. apply IHt; auto.
-    (* VNone *)
-    - apply P_id; auto.
-    - apply P_id; auto.
+      intros call N hsup t; induction t as [| lk | | | t' IHt | o t' IHt | t' IHt | ts IHts | o kt IHk vt IHv | c0 | tw IHw | us IHus |] using ty_ind';
+      intros n Hc Hu Ho Hn; try (simpl in Hc; discriminate Hc);
+      try (apply IHw; auto; fail);
+      try (apply P_id; auto; fail);
+      try (cbn [cp]; rewrite rp_opt; apply IHt; auto; fail);
+      try (apply union_pack_case; auto; fail).
+    (* VNone : Optional *)
     - simpl. split; [reflexivity | lia].
     (* VLeaf *)
-    - simpl. destruct (e_lp E lk); simpl; (split; [reflexivity | lia]).
-    - apply P_id; auto.
-    - apply P_id; auto.
-    - cbn [cp]. rewrite rp_opt. apply IHt; auto.
-    (* VOpq *)
-    - apply P_id; auto.
-    - apply P_id; auto.
-    - cbn [cp]. rewrite rp_opt. apply IHt; auto.
+    - simpl. destruct (e_lp E lk); destruct lk; simpl; (split; [reflexivity | lia]).
     (* VSeq *)
-    - apply P_id; auto.
-    - apply P_id; auto.
-    - cbn [cp]. rewrite rp_opt. apply IHt; auto.
     - (* TSeq *)
       assert (Hl: (l <? n0) = true) by (simpl in Ho; apply andb_prop in Ho; tauto).
+      assert (Hk: origin_eqb o OList = true -> k = KList).
+      { intros Ho'. simpl in Hc. apply andb_prop in Hc. destruct Hc as [Hk _].
+        destruct o; try discriminate Ho'. destruct k; try discriminate Hk. reflexivity. }
       assert (Hxs: Forall (fun x => forall m, n0 <= m ->
                  let (y, m') := run_pack E x call (cp E N hsup t') m in
                  maxold n0 y = byref E (ident E) x call N hsup t' /\ m <= m') xs).
-      { simpl in Hc, Ho. apply andb_prop in Ho. destruct Ho as [_ Ho].
-        apply forallb_Forall in Hc. apply forallb_Forall in Ho.
-        pose proof (Forall_and _ _ _ (Forall_and _ _ _ IH Hc) Ho) as H.
-        eapply Forall_impl; [| exact H]. intros x [[Hx Hcx] Hox] m Hm. apply Hx; auto. }
+      { simpl in Hc, Ho, Hu. apply andb_prop in Ho. destruct Ho as [_ Ho].
+        apply andb_prop in Hc. destruct Hc as [_ Hc].
+        apply forallb_Forall in Hc. apply forallb_Forall in Ho. apply forallb_Forall in Hu.
+        pose proof (Forall_and _ _ _ (Forall_and _ _ _ (Forall_and _ _ _ IH Hc) Ho) Hu) as H.
+        eapply Forall_impl; [| exact H]. intros x [[[Hx Hcx] Hox] Hux] m Hm. apply Hx; auto. }
       cbn [cp]. unfold seq_expr.
       change (byref E (ident E) (VSeq k l xs) call N hsup (TSeq o t'))
         with (if inN N o && ident E N t' then [VSeq k l xs]
@@ -238,7 +324,7 @@ Section PackShare.
           { clear -Hxs Hid Hn. rewrite Hid in Hxs. induction Hxs as [| x r Hx Hr IHr]; simpl; [reflexivity |].
             specialize (Hx n Hn). rewrite rp_id in Hx. destruct Hx as [Hx _]. now rewrite Hx, IHr. }
           destruct (origin_eqb o OList).
-          -- simpl. rewrite (fresh_not_old n0 n Hn). split; [exact Hflat | lia].
+          -- rewrite (Hk eq_refl). simpl. rewrite (fresh_not_old n0 n Hn). split; [exact Hflat | lia].
           -- rewrite Hid. simpl.
              pose proof (map_st_flat (fun x => run_pack E x call IId) (maxold n0)
                            (fun x => byref E (ident E) x call N hsup t') n0 xs) as HM.
@@ -254,25 +340,29 @@ Section PackShare.
       assert (Hxs: Forall (fun x => forall m, n0 <= m ->
                  let (y, m') := run_pack E x call (cp E N hsup t') m in
                  maxold n0 y = byref E (ident E) x call N hsup t' /\ m <= m') xs).
-      { simpl in Hc, Ho. apply andb_prop in Ho. destruct Ho as [_ Ho].
-        apply forallb_Forall in Hc. apply forallb_Forall in Ho.
-        pose proof (Forall_and _ _ _ (Forall_and _ _ _ IH Hc) Ho) as H.
-        eapply Forall_impl; [| exact H]. intros x [[Hx Hcx] Hox] m Hm. apply Hx; auto. }
+      { simpl in Hc, Ho, Hu. apply andb_prop in Ho. destruct Ho as [_ Ho].
+        apply andb_prop in Hc. destruct Hc as [_ Hc].
+        apply forallb_Forall in Hc. apply forallb_Forall in Ho. apply forallb_Forall in Hu.
+        pose proof (Forall_and _ _ _ (Forall_and _ _ _ (Forall_and _ _ _ IH Hc) Ho) Hu) as H.
+        eapply Forall_impl; [| exact H]. intros x [[[Hx Hcx] Hox] Hux] m Hm. apply Hx; auto. }
       simpl.
       pose proof (map_st_flat (fun x => run_pack E x call (cp E N hsup t')) (maxold n0)
                     (fun x => byref E (ident E) x call N hsup t') n0 xs Hxs (S n) ltac:(lia)) as HM.
       destruct (map_st (fun x => run_pack E x call (cp E N hsup t')) xs (S n)) as [ys n'].
       simpl. rewrite (fresh_not_old n0 n Hn). destruct HM as [HM1 HM2]. split; [exact HM1 | lia].
     - (* TTup *)
-      assert (Hxs: Forall (fun x => forall (t: ty) m, conforms E x t = true -> n0 <= m ->
+      assert (Hxs: Forall (fun x => forall (t: ty) m,
+                 conforms E x t && udet E x call N hsup t = true -> n0 <= m ->
                  let (y, m') := run_pack E x call (cp E N hsup t) m in
                  maxold n0 y = byref E (ident E) x call N hsup t /\ m <= m') xs).
       { simpl in Ho. apply andb_prop in Ho. destruct Ho as [_ Ho]. apply forallb_Forall in Ho.
         pose proof (Forall_and _ _ _ IH Ho) as H.
-        eapply Forall_impl; [| exact H]. intros x [Hx Hox] t m Hcx Hm. apply Hx; auto. }
-      simpl in Hc.
+        eapply Forall_impl; [| exact H]. intros x [Hx Hox] t m Hcx Hm.
+        apply andb_prop in Hcx. destruct Hcx as [Hcx Hux]. apply Hx; auto. }
+      simpl in Hc, Hu. apply andb_prop in Hc. destruct Hc as [_ Hc]. pose proof (zip_all_and _ _ _ _ Hc Hu) as Hcu.
       pose proof (zip_st_flat (fun x t => run_pack E x call (cp E N hsup t)) (maxold n0)
-                    (fun x t => byref E (ident E) x call N hsup t) (conforms E) n0 xs Hxs ts (S n) Hc ltac:(lia)) as HM.
+                    (fun x t => byref E (ident E) x call N hsup t)
+                    (fun x t => conforms E x t && udet E x call N hsup t) n0 xs Hxs ts (S n) Hcu ltac:(lia)) as HM.
       simpl.
       assert (Hz: forall m, zip_st (fun x e' => run_pack E x call e') (map (cp E N hsup) ts) xs m
                          = zip_st (fun x t => run_pack E x call (cp E N hsup t)) ts xs m).
@@ -282,9 +372,6 @@ Section PackShare.
       destruct (zip_st (fun x t => run_pack E x call (cp E N hsup t)) ts xs (S n)) as [ys n'].
       simpl. rewrite (fresh_not_old n0 n Hn). destruct HM as [HM1 HM2]. split; [exact HM1 | lia].
     (* VMap *)
-    - apply P_id; auto.
-    - apply P_id; auto.
-    - cbn [cp]. rewrite rp_opt. apply IHt; auto.
     - (* TMap *)
       assert (Hl: (l <? n0) = true) by (simpl in Ho; apply andb_prop in Ho; tauto).
       assert (Hkvs: Forall (fun kv : lv * lv => forall m, n0 <= m ->
@@ -294,14 +381,16 @@ Section PackShare.
                  (let (a, b) := y in maxold n0 a ++ maxold n0 b)
                  = (let (k0, x) := kv in byref E (ident E) k0 call N hsup kt ++ byref E (ident E) x call N hsup vt)
                  /\ m <= m') kvs).
-      { simpl in Hc, Ho. apply andb_prop in Ho. destruct Ho as [_ Ho].
-        apply forallb_Forall in Hc. apply forallb_Forall in Ho.
-        pose proof (Forall_and _ _ _ (Forall_and _ _ _ IH Hc) Ho) as H.
-        eapply Forall_impl; [| exact H]. intros [k0 x] [[[Hk Hx] Hcx] Hox] m Hm. simpl in *.
+      { simpl in Hc, Ho, Hu. apply andb_prop in Ho. destruct Ho as [_ Ho].
+        apply andb_prop in Hc. destruct Hc as [_ Hc].
+        apply forallb_Forall in Hc. apply forallb_Forall in Ho. apply forallb_Forall in Hu.
+        pose proof (Forall_and _ _ _ (Forall_and _ _ _ (Forall_and _ _ _ IH Hc) Ho) Hu) as H.
+        eapply Forall_impl; [| exact H]. intros [k0 x] [[[[Hk Hx] Hcx] Hox] Hux] m Hm. simpl in *.
         apply andb_prop in Hcx. destruct Hcx as [Hck Hcx]. apply andb_prop in Hox. destruct Hox as [Hok Hox].
-        specialize (Hk call N hsup kt m Hck Hok Hm).
+        apply andb_prop in Hux. destruct Hux as [Huk Hux].
+        specialize (Hk call N hsup kt m Hck Huk Hok Hm).
         destruct (run_pack E k0 call (cp E N hsup kt) m) as [k' m1]. destruct Hk as [Hk Hm1].
-        specialize (Hx call N hsup vt m1 Hcx Hox ltac:(lia)).
+        specialize (Hx call N hsup vt m1 Hcx Hux Hox ltac:(lia)).
         destruct (run_pack E x call (cp E N hsup vt) m1) as [x' m2]. destruct Hx as [Hx Hm2].
         split; [now rewrite Hk, Hx | lia]. }
       pose proof (map_st_flat _ (fun y : lv * lv => let (a, b) := y in maxold n0 a ++ maxold n0 b)
@@ -337,24 +426,25 @@ Section PackShare.
         match goal with |- context [map_st ?f kvs (S n)] => destruct (map_st f kvs (S n)) as [ys n'] end.
         simpl. rewrite (fresh_not_old n0 n Hn). destruct HM as [HM1 HM2]. split; [exact HM1 | lia].
     (* VObj *)
-    - apply P_id; auto.
-    - apply P_id; auto.
-    - cbn [cp]. rewrite rp_opt. apply IHt; auto.
     - (* TDC *)
       simpl in Hc. apply andb_prop in Hc. destruct Hc as [Hcc Hc]. apply Nat.eqb_eq in Hcc. subst c0.
-      simpl.
-      set (call' := if hsup && c_sup (e_ct E c) then call else None).
-      set (kc := e_ct E c).
-      set (N' := effN E call' kc).
-      assert (Hfs: Forall (fun x => forall (t: ty) m, conforms E x t = true -> n0 <= m ->
+      simpl in Hu. simpl.
+      set (call' := if hsup && c_sup (e_ct E c) then call else None) in *.
+      set (kc := e_ct E c) in *.
+      set (N' := effN E call' kc) in *.
+      assert (Hfs: Forall (fun x => forall (t: ty) m,
+                 conforms E x t && udet E x call' N' (c_sup kc) t = true -> n0 <= m ->
                  let (y, m') := run_pack E x call' (cp E N' (c_sup kc) t) m in
                  maxold n0 y = byref E (ident E) x call' N' (c_sup kc) t /\ m <= m') fs).
       { simpl in Ho. apply andb_prop in Ho. destruct Ho as [_ Ho]. apply forallb_Forall in Ho.
         pose proof (Forall_and _ _ _ IH Ho) as H.
-        eapply Forall_impl; [| exact H]. intros x [Hx Hox] t m Hcx Hm. apply Hx; auto. }
+        eapply Forall_impl; [| exact H]. intros x [Hx Hox] t m Hcx Hm.
+        apply andb_prop in Hcx. destruct Hcx as [Hcx Hux]. apply Hx; auto. }
+      pose proof (zip_all_and _ _ _ _ Hc Hu) as Hcu.
       pose proof (zip_st_flat (fun x t => run_pack E x call' (cp E N' (c_sup kc) t)) (maxold n0)
-                    (fun x t => byref E (ident E) x call' N' (c_sup kc) t) (conforms E) n0 fs Hfs
-                    (c_fields kc) (S n) Hc ltac:(lia)) as HM.
+                    (fun x t => byref E (ident E) x call' N' (c_sup kc) t)
+                    (fun x t => conforms E x t && udet E x call' N' (c_sup kc) t) n0 fs Hfs
+                    (c_fields kc) (S n) Hcu ltac:(lia)) as HM.
       destruct (zip_st (fun x t => run_pack E x call' (cp E N' (c_sup kc) t)) (c_fields kc) fs (S n)) as [ys n'].
       simpl. rewrite (fresh_not_old n0 n Hn). rewrite maxold_as_items.
       destruct HM as [HM1 HM2]. split; [exact HM1 | lia].
@@ -414,15 +504,13 @@ Section UnpackShare.
   Lemma unpack_share_all : forall w, P_unpack w.
   Proof.
     induction w as [z | | z | l | k l xs IH | k l kvs IH | c l fs IH] using lv_ind';
-      intros t; induction t as [| lk | | | t' IHt | o t' IHt | t' IHt | ts IHts | o kt IHk vt IHv | c0 | tw IHw | us IHus] using ty_ind';
+      intros t; induction t as [| lk | | | t' IHt | o t' IHt | t' IHt | ts IHts | o kt IHk vt IHv | c0 | tw IHw | us IHus |] using ty_ind';
       intros n Hc Ho Hn; try (simpl in Hc; discriminate Hc);
       try (apply U_id; auto; fail);
       try (cbn [cu]; rewrite ru_opt; apply IHt; auto; fail);
       try (apply union_case; auto; fail);
-      try (apply IHw; auto; fail).
-    - simpl. split; [reflexivity | lia].
-    - simpl. split; [reflexivity | lia].
-    - simpl. split; [reflexivity | lia].
+      try (apply IHw; auto; fail);
+      try (simpl; split; [reflexivity | lia]; fail).
     - (* TSeq *)
       assert (Hxs: Forall (fun x => forall m, n0 <= m ->
                  let (y, m') := run_unpack E x (cu t') m in maxold n0 y = anyref E x t' /\ m <= m') xs).
@@ -511,10 +599,10 @@ End UnpackShare.
 (* ------------------------------------------------------------------ *)
 (* entry points *)
 Lemma pack_top_share E n0 call Ntop t v :
-  conforms E v t = true -> all_old n0 v = true ->
+  conforms E v t = true -> udet E v call Ntop true t = true -> all_old n0 v = true ->
   let (r, n1) := pack_top E call Ntop t v n0 in
   maxold n0 r = byref E (ident E) v call Ntop true t /\ n0 <= n1.
-Proof. intros Hc Ho. unfold pack_top. apply pack_share_all; auto. Qed.
+Proof. intros Hc Hu Ho. unfold pack_top. apply pack_share_all; auto. Qed.
 
 Lemma unpack_top_fresh E n0 t w :
   wconforms E w t = true -> all_old n0 w = true ->
@@ -527,7 +615,7 @@ Proof. intros Hc Ho. unfold unpack_top. apply unpack_share_all; auto. Qed.
    is copied *)
 Definition share_full : Prop :=
   forall E n0 call Ntop t v,
-    conforms E v t = true -> all_old n0 v = true ->
+    conforms E v t = true -> udet E v call Ntop true t = true -> all_old n0 v = true ->
     let (r, n1) := pack_top E call Ntop t v n0 in
     maxold n0 r = byref E (conv_free E) v call Ntop true t /\ n0 <= n1.
 
@@ -537,6 +625,80 @@ Definition env0 : env :=
 Lemma share_full_refuted : ~ share_full.
 Proof.
   intros H.
-  specialize (H env0 1 None [OList] (TSeq OList (TOpt TAtom)) (VSeq KList 0 [VAtom 1%Z]) eq_refl eq_refl).
+  specialize (H env0 1 None [OList] (TSeq OList (TOpt TAtom)) (VSeq KList 0 [VAtom 1%Z]) eq_refl eq_refl eq_refl).
   vm_compute in H. destruct H as [H _]. discriminate H.
 Qed.
+
+(* without the dispatch condition udet the statement fails on unions: the identity branch of the
+   union method is guarded by the class of the value only, so a list that belongs to a member
+   whose elements need conversion is handed out by reference when another member with the same
+   origin is passed by reference (known finding C18/nocopy-union-class-check) *)
+Definition share_union_full : Prop :=
+  forall E n0 call Ntop t v,
+    conforms E v t = true -> all_old n0 v = true ->
+    let (r, n1) := pack_top E call Ntop t v n0 in
+    maxold n0 r = byref E (ident E) v call Ntop true t /\ n0 <= n1.
+
+Lemma share_union_full_refuted : ~ share_union_full.
+Proof.
+  intros H.
+  specialize (H env0 1 None [OList] (TUnion [TSeq OList (TLeaf LDecimal); TSeq OList TAtom])
+                (VSeq KList 0 [VLeaf 1%Z]) eq_refl eq_refl).
+  vm_compute in H. destruct H as [H _]. discriminate H.
+Qed.
+
+(* ------------------------------------------------------------------ *)
+(* union-free schemas: udet holds for every conforming value *)
+Fixpoint unionfree (t: ty) : bool :=
+  match t with
+  | TUnion _ => false
+  | TAtom | TLeaf _ | TAny | TPass | TDC _ | TNone => true
+  | TOpt t' | TSeq _ t' | TTupV t' | TWrap t' => unionfree t'
+  | TTup ts => forallb unionfree ts
+  | TMap _ kt vt => unionfree kt && unionfree vt
+  end.
+Definition unionfree_env (E: env) : Prop := forall c, forallb unionfree (E.(e_ct) c).(c_fields) = true.
+
+Lemma zip_all_impl {A B} (p q: A -> B -> bool) (r: B -> bool) xs :
+  Forall (fun x => forall t, r t = true -> p x t = true -> q x t = true) xs ->
+  forall ts, forallb r ts = true -> zip_all p ts xs = true -> zip_all q ts xs = true.
+Proof.
+  induction 1 as [| x xs' Hx Hr IH]; intros ts Hrt Hp; destruct ts as [| t ts]; simpl in *; try discriminate; auto.
+  apply andb_prop in Hrt. apply andb_prop in Hp. destruct Hrt as [Hr1 Hr2]. destruct Hp as [Hp1 Hp2].
+  rewrite (Hx t Hr1 Hp1). simpl. now apply IH.
+Qed.
+
+Section UnionFree.
+  Variable E : env.
+  Hypothesis Huf : unionfree_env E.
+
+  Lemma udet_unionfree : forall v call N hsup t,
+    unionfree t = true -> conforms E v t = true -> udet E v call N hsup t = true.
+  Proof.
+    induction v as [z | | z | l | k l xs IH | k l kvs IH | c l fs IH] using lv_ind';
+      intros call N hsup t; induction t as [| lk | | | t' IHt | o t' IHt | t' IHt | ts IHts | o kt IHk vt IHv | c0 | tw IHw | us IHus |] using ty_ind';
+      intros Hf Hc; try (apply IHw; auto; fail); try (apply IHt; auto; fail);
+      simpl in Hf; try discriminate Hf; simpl in Hc; try discriminate Hc; try reflexivity.
+    - simpl. apply andb_prop in Hc. destruct Hc as [_ Hc]. apply forallb_forall. intros x Hx. rewrite Forall_forall in IH.
+      apply IH; auto. rewrite forallb_forall in Hc. now apply Hc.
+    - simpl. apply andb_prop in Hc. destruct Hc as [_ Hc]. apply forallb_forall. intros x Hx. rewrite Forall_forall in IH.
+      apply IH; auto. rewrite forallb_forall in Hc. now apply Hc.
+    - simpl. apply andb_prop in Hc. destruct Hc as [_ Hc].
+      apply (zip_all_impl (conforms E) _ unionfree xs) with (ts := ts); auto.
+      eapply Forall_impl; [| exact IH]. intros x Hx t Ht Hcx. apply Hx; auto.
+    - simpl. apply andb_prop in Hf. destruct Hf as [Hfk Hfv]. apply andb_prop in Hc. destruct Hc as [_ Hc].
+      apply forallb_forall. intros [a b] Hx. rewrite Forall_forall in IH. destruct (IH (a, b) Hx) as [IHa IHb].
+      rewrite forallb_forall in Hc. specialize (Hc (a, b) Hx). simpl in *.
+      apply andb_prop in Hc. destruct Hc as [Hca Hcb]. rewrite IHa, IHb; auto.
+    - simpl. apply andb_prop in Hc. destruct Hc as [Hcc Hc].
+      apply (zip_all_impl (conforms E) _ unionfree fs) with (ts := c_fields (e_ct E c)); auto.
+      eapply Forall_impl; [| exact IH]. intros x Hx t Ht Hcx. apply Hx; auto.
+  Qed.
+End UnionFree.
+
+Lemma pack_top_share_unionfree E n0 call Ntop t v :
+  unionfree_env E -> unionfree t = true ->
+  conforms E v t = true -> all_old n0 v = true ->
+  let (r, n1) := pack_top E call Ntop t v n0 in
+  maxold n0 r = byref E (ident E) v call Ntop true t /\ n0 <= n1.
+Proof. intros He Ht Hc Ho. apply pack_top_share; auto. apply udet_unionfree; auto. Qed.
